@@ -281,14 +281,19 @@ func workerMain(thorough bool) {
 	// site table self-check for this worker's sites (also warms the baselines): does the harmless value reach a
 	// statement exactly where the table says it does?
 	var silent []string
+	used := map[int]bool{}
+	enumerate(thorough, func(idx, si int, ph string, s string) { used[si] = true })
 	if *flagOnly < 0 && *flagFrom == 0 {
 		for i := range sites {
-			if !mine(i) {
+			if !mine(i) || !used[i] {
 				continue
 			}
 			site := &sites[i]
 			va := defaultBaselineVariant(site)
 			b := c.baseline(site, va)
+			if c.env.endpoint != site.Endpoint {
+				silent = append(silent, fmt.Sprintf("%s is served by endpoint %q, the site table says %q", site.ID, c.env.endpoint, site.Endpoint))
+			}
 			n := 0
 			var bf *Finding
 			if b.loaded {
@@ -514,6 +519,7 @@ func main() {
 		"table and database names come from configuration, not from requests, and are outside the quantifier",
 		"one position is hostile per request; the other strings of the request are harmless",
 	}
+	r.Extra["request_surface_scan"] = scanRequestSurface()
 	W := *flagW
 	if W <= 0 {
 		W = runtime.NumCPU()
